@@ -240,18 +240,6 @@ theorem lrotB_spec (fuel n : Nat) (s : State F) (hv : VS s n) (hrun : s.ctl = .r
         refine ⟨fun h => absurd h hc, fun _ => ?_⟩
         simp [nAt_set, l1, l2, l3, l4, l5, l6, l7, hpx, hpy, hpx.symm, hpy.symm, hpyl, hpyl.symm]
 
-theorem Linked.idx_lt {N : List Int} {n : Nat} : ∀ {sh : Sh} {par : Int}, Linked N n par sh → ∀ i ∈ sh.idxs, i + 1 < n := by
-  intro sh
-  induction sh with
-  | nil => intro _ _ i hi; simp [Sh.idxs] at hi
-  | node l j r ihl ihr =>
-    intro par h i hi
-    simp only [Sh.idxs, List.mem_append, List.mem_cons] at hi
-    rcases hi with hi | rfl | hi
-    · exact ihl h.2.2.2.2.1 i hi
-    · exact h.1
-    · exact ihr h.2.2.2.2.2 i hi
-
 /-- the row behind the pointer of a linked subtree is a row of the subtree, or the NIL row -/
 theorem rowOf_ptr_cases {N : List Int} {n : Nat} {par : Int} {sh : Sh} (h : Linked N n par sh) :
     rowOf n sh.ptr = n - 1 ∨ rowOf n sh.ptr ∈ sh.idxs := by
